@@ -67,11 +67,22 @@ def Ctx.notifySubChange (c : Ctx) (t : Topic) (uid actor : Uid) (oldWant oldGive
   let act := if actor = uid then "" else s!" act={actor}"
   let p : PresMsg := { what := "acs", src := uid, extra := acs ++ act, filterIn := modeCSharer, excludeUser := uid, skipSid := skip }
   let c := c.presOnline t p
+  -- a new subscription, or more asked for than granted: the sharers are told on `me` too
+  let c := if betterThan newWant newGiven ∨ oldWant = modeNone then
+      c.presSubsOffline t "acs" acs actor uid modeCSharer 0 { what := "acs", filterIn := modeCSharer, excludeUser := uid } skip true
+    else c
   if unsub then
-    c.presOnline t { what := "off", src := uid, filterIn := modeCSharer, excludeUser := uid, skipSid := skip }
+    let c := c.presOnline t { what := "off", src := uid, filterIn := modeCSharer, excludeUser := uid, skipSid := skip }
+    c.presSingleOfflineOffline uid t.name "gone" "" "" "" skip
   else
+    let newM := newWant &&& newGiven
+    let oldM := oldWant &&& oldGiven
+    let c := if !isPresencer newM ∧ isPresencer oldM then c.presSingleOfflineOffline uid t.name "off+dis" "" "" "" ""
+      else if isPresencer newM ∧ !isPresencer oldM then c.presSingleOffline t uid newM "?unkn+en" "" "" "" "" false
+      else c
     -- presSubsOnlineDirect("acs", singleUser = target): target and actor are NOT cleared here
-    c.presDirect t { what := "acs", src := "", extra := acs, singleUser := uid, skipSid := skip }
+    let c := c.presDirect t { what := "acs", src := "", extra := acs, singleUser := uid, skipSid := skip }
+    c.presSingleOffline t uid newM "acs" acs actor uid skip true
 
 /-! ### thisUserSub (topic.go:1466-1831), group topic, not a channel -/
 
@@ -210,6 +221,9 @@ def Ctx.thisUserSub (c : Ctx) (t : Topic) (a : Actor) (want : String) (priv : Pr
     match res with
     | (c, none) => (c, t, none)        -- the error is returned without any reply (topic.go:1761, 1764)
     | (c, some t) =>
+    -- muting: "off+dis" for the user's `me` - which the filter of presSingleUserOffline never lets through for a mode without P
+    let c := if isPresencer (oldWant &&& oldGiven) ∧ !isPresencer (eff ud) then
+        c.presSingleOffline t a.uid (eff ud) "off+dis" "" "" "" "" false else c
     let t := t.setPud a.uid ud
     let changed := oldWant ≠ ud.want ∨ oldGiven ≠ ud.given
     let c := if changed then c.notifySubChange t a.uid a.uid oldWant oldGiven ud.want ud.given a.sid else c
